@@ -178,6 +178,29 @@ class Run:
                 self.nodes[(cls["name"], wid)] = n
                 self.node_key[id(n)] = (cls["name"], wid)
                 order.append(n)
+        self.lazy = bool(spec.get("lazy"))
+        self.flat = {}
+        self.revealed = set()
+        if self.lazy:
+            # only the shared root and one flat node per selected (leaf) test exist up front; composite nodes are
+            # revealed by the stubbed `parse_paths_to_object_roots` (the real one needs the Cartesian parser)
+            shared_obj = m.TestObject("shared", m.param.Reparsable())
+            shared_obj._params_cache = m.Params({"name": "shared", "shortname": "shared"})
+            for cls in spec["classes"]:
+                if not cls.get("leaf"):
+                    continue
+                f = m.TestNode(cls.get("prefix", "1"), m.param.Reparsable())
+                f._params_cache = m.Params({"name": f"normal.nongui.{cls['name']}", "shortname": f"nongui.{cls['name']}",
+                                            "main_restrictions": MAIN_RESTR, "vms": " ".join(cls["objs"]), "nets": "",
+                                            "_name_map_file": {}})
+                f.descend_from_node(root, shared_obj)
+                self.flat[cls["name"]] = f
+                self.node_key[id(f)] = (cls["name"], "*flat*")
+            graph.new_nodes(list(self.flat.values()))
+            graph.new_nodes(root)
+            self.graph = graph
+            self.order = order
+            return graph
         # edges (in the class's declared parent order) and bridging (new node bridges with all old equivalent ones)
         for w in spec["workers"]:
             wid = w["id"]
@@ -205,7 +228,7 @@ class Run:
     # -- static ranks the model cannot compute (prefix_priority is not modelled) -----------
     def ranks(self):
         from functools import cmp_to_key
-        nodes = self.order + [self.root]
+        nodes = self.order + list(self.flat.values()) + [self.root]
         srt = sorted(nodes, key=cmp_to_key(lambda x, y: self.m.TestNode.prefix_priority(x.long_prefix, y.long_prefix)))
         rank, r, prev = {}, -1, None
         for n in srt:
@@ -231,6 +254,7 @@ class Run:
         run = self
         self._saved = (m.TestRunner.run_test_task, m.node_mod.door, m.TestWorker.get_session,
                        m.TestGraph.parse_node_from_object, asyncio.sleep)
+        self._saved_parse = m.TestGraph.parse_paths_to_object_roots
 
         async def run_test_task(runner, node):
             wid = node.params["nets"]
@@ -322,6 +346,42 @@ class Run:
                                 run.nodes[(c, w2)].params.get("object_root") == params.get("object_root")][0]
             return n
 
+        def parse_paths_to_object_roots(graph_self, test_node, test_object, params=None):
+            """synthetic stand-in for the lazy Cartesian expansion of a flat node for one worker's net"""
+            wid = test_object.params["shortname"]
+            cname = run.node_key[id(test_node)][0]
+            classes = {c["name"]: c for c in run.spec["classes"]}
+            leaf = run.nodes.get((cname, wid))
+            if leaf is None:
+                test_node.incompatible_workers.add(test_object.long_suffix)
+                return
+            todo, new = [cname], []
+            while todo:
+                c = todo.pop()
+                n = run.nodes[(c, wid)]
+                if id(n) in run.revealed or n in new:
+                    continue
+                new.append(n)
+                todo.extend(p for p, _ in classes[c].get("parents", []))
+            for n in new:
+                for old in [x for x in run.order if id(x) in run.revealed]:
+                    if run.node_key[id(old)][0] == run.node_key[id(n)][0]:
+                        n.bridge_with_node(old)
+                run.revealed.add(id(n))
+                graph_self.new_nodes(n)
+            for n in new:
+                c = classes[run.node_key[id(n)][0]]
+                for pname, vm in c.get("parents", []):
+                    n.descend_from_node(run.nodes[(pname, wid)], run.imgobjs[vm])
+            if id(leaf) in {id(x) for x in new}:
+                leaf.descend_from_node(test_node, test_object)
+            roots = [n for n in new if n.is_object_root()]
+            run.ev(run.worker_of_task(), "parse", cname, wid, {"new": sorted(run.node_key[id(n)][0] for n in new)})
+            first = True
+            for n in new:
+                yield (roots if first else []), [], n
+                first = False
+
         async def vsleep_logged(delay, result=None):
             t = asyncio.current_task()
             if t is not None and t.get_name() in run.workers and not getattr(run, "_in_test", False):
@@ -334,6 +394,8 @@ class Run:
         m.node_mod.door = Door
         m.TestWorker.get_session = lambda self: None
         m.TestGraph.parse_node_from_object = staticmethod(parse_node_from_object)
+        if getattr(self, "lazy", False):
+            m.TestGraph.parse_paths_to_object_roots = parse_paths_to_object_roots
         m.graph_mod.asyncio = types.SimpleNamespace(sleep=vsleep_logged)
         import avocado_i2n.plugins.runner as runner_mod
         self._runner_asyncio = runner_mod.asyncio
@@ -345,6 +407,7 @@ class Run:
         m = self.m
         (m.TestRunner.run_test_task, m.node_mod.door, m.TestWorker.get_session,
          m.TestGraph.parse_node_from_object, _) = self._saved
+        m.TestGraph.parse_paths_to_object_roots = self._saved_parse
         m.graph_mod.asyncio = asyncio
         self._runner_mod.asyncio = self._runner_asyncio
 
@@ -424,7 +487,8 @@ def spec_lines(run):
         for w in s.workers:
             widx[w.id] = len(widx)
             lines.append(f"worker {w.id} {w.swarm_id} {1 if len(w.restrs) else 0}")
-    nodes = list(run.graph.nodes)
+    lazy = getattr(run, "lazy", False)
+    nodes = (list(run.order) + list(run.flat.values()) + [run.root]) if lazy else list(run.graph.nodes)
     nidx = {id(n): i for i, n in enumerate(nodes)}
     classes = {}
     rank = run.ranks()
@@ -450,10 +514,28 @@ def spec_lines(run):
             f"timeout={p.get('test_timeout', 3600)} shape={shape_of(p)} scope={','.join(p.get('pool_scope', '').split()) or '-'} "
             f"filter={p.get('pool_filter', 'reuse')} rerun={','.join(p.get_list('rerun_status', [])) or '-'} "
             f"stop={','.join(p.get_list('stop_status', [])) or '-'} rank={rank[id(n)]} objs={','.join(vms) or '-'}")
-    for i, n in enumerate(nodes):
-        for parent, objs in n.setup_nodes.items():
-            vms = sorted({o.long_suffix.split("_")[-1] for o in objs if o.key != "nets"})
-            lines.append(f"edge {i} {nidx[id(parent)]} {','.join(vms) or '-'}")
+    if lazy:
+        # the complete (eager) edge set, as the expansion stub will reveal it
+        cdef = {c["name"]: c for c in run.spec["classes"]}
+        for i, n in enumerate(nodes):
+            cname, wid = run.node_key.get(id(n), (None, None))
+            if n is run.root:
+                continue
+            if wid == "*flat*":
+                lines.append(f"edge {i} {nidx[id(run.root)]} -")
+                continue
+            c = cdef[cname]
+            if not c.get("parents"):
+                lines.append(f"edge {i} {nidx[id(run.root)]} {c['root_of'] if c.get('root_of') else c['objs'][0]}")
+            for pname, vm in c.get("parents", []):
+                lines.append(f"edge {i} {nidx[id(run.nodes[(pname, wid)])]} {vm}")
+            if c.get("leaf"):
+                lines.append(f"edge {i} {nidx[id(run.flat[cname])]} -")
+    else:
+        for i, n in enumerate(nodes):
+            for parent, objs in n.setup_nodes.items():
+                vms = sorted({o.long_suffix.split("_")[-1] for o in objs if o.key != "nets"})
+                lines.append(f"edge {i} {nidx[id(parent)]} {','.join(vms) or '-'}")
     lines.append(f"root {nidx[id(run.root)]}")
     for loc, states in sorted(run.spec.get("pool", {}).items()):
         lines.append(f"pool {loc} " + ",".join(f"{a}:{b}" for a, b in states))
@@ -714,7 +796,7 @@ def run_case(spec, driver, monitors=MONITORS, max_virtual=200000):
     r.execute(max_virtual=max_virtual)
     res = {"events": len(r.events), "vtime": r.vtime, "verdict": r.verdict}
     lines = list(r.static_lines)
-    bl = [] if r.overflow else blocks(r)
+    bl = [] if (r.overflow or getattr(r, 'lazy', False)) else blocks(r)
     n0 = len(lines)
     lines += [b[0] for b in bl]
     n1 = len(lines)
@@ -726,7 +808,7 @@ def run_case(spec, driver, monitors=MONITORS, max_virtual=200000):
     outs = driver("drv_trav", lines)
     res["disagree"] = None
     res["overflow"] = r.overflow
-    for i, (resume, evs) in enumerate([] if r.overflow else bl):
+    for i, (resume, evs) in enumerate(bl):
         got = " | ".join(canon(x) for x in outs[n0 + i].split(" | ") if x)
         want = " | ".join(evs)
         if got != want:
